@@ -1048,6 +1048,7 @@ func (s *SecureChannel) sendAsyncWithTimeout(
 	verifPoint("send.numbered", reqID, instance, m.SequenceHeader.SequenceNumber)
 
 	var resp chan *MessageBody
+	sent := false
 
 	if respRequired {
 		// register the handler if a callback was passed
@@ -1064,6 +1065,14 @@ func (s *SecureChannel) sendAsyncWithTimeout(
 		s.handlers[reqID] = resp
 		verifPoint("handlers.register", reqID, true)
 		s.handlersMu.Unlock()
+
+		// the request can still fail below (encoding, context, signing,
+		// write). Nobody waits for the response then: release the slot.
+		defer func() {
+			if !sent {
+				s.popHandler(reqID)
+			}
+		}()
 	}
 
 	chunks, err := m.EncodeChunks(instance.maxBodySize)
@@ -1102,6 +1111,7 @@ func (s *SecureChannel) sendAsyncWithTimeout(
 		debug.Printf("uasc %d/%d: send %T with %d bytes", s.c.ID(), reqID, req, len(chunk))
 	}
 
+	sent = true
 	return resp, nil
 }
 
